@@ -171,7 +171,9 @@ func (st *Store) SetPendingAmount(addr keys.Address, height int64, coin *balance
 
 //iterate addresses for height
 func (st *Store) IteratePendingAmounts(height int64, fn func(addr *keys.Address, coin *balance.Coin) bool) bool {
-	prefix := append(st.buildPendingKey(), strconv.FormatInt(height, 10)...)
+	// the separator ends the height: without it the entries of every height whose
+	// decimal text starts with this one (7 -> 70..79, 700..799, ...) were visited too
+	prefix := append(st.buildPendingKey(), strconv.FormatInt(height, 10)+storage.DB_PREFIX...)
 	return st.iterateAddresses(prefix, func(addr *keys.Address, coin *balance.Coin) bool {
 		return fn(addr, coin)
 	})
